@@ -122,6 +122,30 @@ Example C02_must_revalidate_stale_is_revalidated :
   needs_validation (view_of e) q (946684810 * second) = true.
 Proof. split; vm_compute; reflexivity. Qed.
 
+(* ---------- history level ---------- *)
+From HC.Proofs Require Import ProvProofs TimeProofs SrcProofs.
+
+(* Along EVERY sequential history from an empty store: a response returned without contacting the origin in that
+   exchange is the synthesised 504, or the served form of a stored entry whose fields and instants are those of
+   origin calls of the history (Src, see C01_history) and which, at the instant the exchange started, does NOT need
+   validation by the specification: no unqualified no-cache, not (stale and must-revalidate), and the request has
+   neither no-cache nor a max-age the response exceeds.  (Premise: the stored Date parses; see C01_history.) *)
+Theorem C02_history_unvalidated : forall cfg h t0 script k gq obs o,
+  let all := run_history cfg h (init_world t0 script) in
+  let L := flat_map (fun x => x_events x ++ x_bg_events x) all in
+  nth_error h k = Some gq -> nth_error all k = Some obs -> x_result obs = Done o -> ~ has_call (x_events obs) ->
+  o = OResp response_504 \/
+  exists e, Src (GXl L) e /\ o = served_outcome (snd gq) e (x_t0 obs) /\
+    (valid_date (e_hdr e) -> needs_validation (view_of e) (snd gq) (x_t0 obs) = false).
+Proof.
+  intros cfg h t0 script k gq obs o all L Hk Ho Hr Hnc.
+  destruct (history_safeX L cfg h (init_world t0 script)) as [_ H]; [intros k' e' E; discriminate|apply incl_refl|].
+  destruct (H k gq obs o Hk Ho Hr Hnc) as [E|(e & Hs & Hd & E)]; [left; exact E|right].
+  exists e. split; [exact Hs|split; [exact E|]]. intros Hv.
+  apply decision_needs_no_validation; [exact Hv|eapply Src_status; exact Hs|exact Hd].
+Qed.
+Print Assumptions C02_history_unvalidated.
+
 (* ---------- tie to the source: the part of the model this property rests on is what /verif/translate derives from
    /repo's Go source on this run (Generated/*.v are rewritten before every build; see DESIGN.md section 9) ---------- *)
 From HC.Generated Require Import SrcHit.
